@@ -274,6 +274,20 @@ def handle (A : Arches) (line : String) : String :=
     (match p.run rest with
      | some (r, []) => r
      | _ => "BAD-REQUEST")
+  | "XE" :: rest =>
+    -- the oracle's event partition with the specification's decisions (XE arch policy plen limit nconsts const…)
+    let p : P String := do
+      let arch ← pArch A
+      let pol ← pPolicy
+      let plen ← nat
+      let limit ← nat
+      let consts ← counted nat
+      match arch with
+      | none => pure "SKIP no-arch"
+      | some a => pure (Oracle.expectations a pol consts plen limit)
+    (match p.run rest with
+     | some (r, []) => r
+     | _ => "BAD-REQUEST")
   | "S" :: rest =>
     -- specification only: decision for one event  (S arch default groups… nr archword a0 … a5)
     let p : P String := do
